@@ -159,6 +159,27 @@ func registerMoreModels(u *Unit) {
 		func(fx *FX, st *State, c *CallCtx) Val {
 			return VStr{app(SSeq, "pesc", c.Args[0].(VStr).T)}
 		})
+	u.reg("net/url.Parse", "err == nil iff urlparses(s); on success a fresh URL whose Scheme, Host, Path, RawQuery are uscheme(s), uhost(s), upath(s), uquery(s) (the other fields are unconstrained); every output of (*URL).String() of a four-field URL parses (assumed round trip)", nil,
+		func(fx *FX, st *State, c *CallCtx) Val {
+			s := c.Args[0].(VStr).T
+			okT := fx.def("urlok", app(SBool, "urlparses", s))
+			var elem types.Type
+			if tup, isT := fx.resultType(c.C).(*types.Tuple); isT && tup.Len() == 2 {
+				if pt, isP := tup.At(0).Type().Underlying().(*types.Pointer); isP {
+					elem = pt.Elem()
+				}
+			}
+			r := fx.allocObj(st, "url", nil)
+			if stt, isS := elem.Underlying().(*types.Struct); isS {
+				for _, nf := range [][2]string{{"Scheme", "uscheme"}, {"Host", "uhost"}, {"Path", "upath"}, {"RawQuery", "uquery"}} {
+					if idx, _, found := findField(stt, nf[0]); found {
+						fx.assume(okT, eq(sel(sel(st.Hs, r), num(fieldOffset(stt, idx))), app(SSeq, nf[1], s)))
+					}
+				}
+			}
+			res := VPtr{Ref: fx.def("urlres", ite(okT, r, num(0))), Off: num(0), Elem: elem}
+			return VTuple{E: []Val{res, fx.condError(st, okT, "urlparse")}}
+		})
 	u.reg("(*net/url.URL).String", "a function of the URL's fields: urlstring4(Scheme, Host, Path, RawQuery) when every other field is zero (the only URLs the library builds), an arbitrary string otherwise; url.Parse of it reads the four fields back (assumed round trip: uscheme/uhost/upath/uquery)", nil,
 		func(fx *FX, st *State, c *CallCtx) Val {
 			up := c.Args[0].(VPtr)
